@@ -521,3 +521,36 @@ def enum_justified(ctx, q, f, c):
     if not arg.endswith(".value") and "value" not in arg:
         return True, "argument is not token text"
     return False, f"`{ast.unparse(c)}`: enum lookup by input-derived value is neither guarded nor covered by a terminal language"
+
+
+def _index_lookups(ctx, rep, tier):
+    """C18.i: codegen renders state numbers with self.dfa.states.index(x) (ValueError if x was removed as unreachable). Besides the one guarded
+    site, this is safe only if removal reachability covers every state a template can name: the C05.d agreement."""
+    from ..core import Report
+    from . import c05
+    model = ctx.model
+    rep.rule("C18.i", "self.dfa.states.index(x) in code generation cannot raise: guarded by except ValueError, or x is kept reachable (override targets / modes agree with dfs: C05.d)")
+    n = 0
+    for q, f in model.functions.items():
+        if not q.startswith("CodegenCtx."):
+            continue
+        for c in calls_in(f, nested=False):
+            if isinstance(c.func, ast.Attribute) and c.func.attr == "index" and ast.unparse(c.func.value) == "self.dfa.states":
+                n += 1
+    sub = Report("C05")
+    c05.run(ctx, sub, tier)
+    hits = [v for v in sub.violations if v.rule == "C05.d"]
+    for v in hits:
+        rep.bad("C18.i", v.function, v.construct, v.message + " - code generation then dies with ValueError: <state> is not in list", v.extra, v.line)
+    if not hits:
+        rep.ok("C18.i", "CodegenCtx", f"{n} state-index lookups; reachability agreement holds")
+    if n < 6:
+        raise AnalysisError("C18.i: state index lookups not found")
+
+
+_run0 = run
+
+
+def run(ctx, rep, tier):
+    _run0(ctx, rep, tier)
+    _index_lookups(ctx, rep, tier)
